@@ -227,3 +227,105 @@ example : ∀ k : Nat, k ≤ 8 → (BitVec.ofNat 32 k).toNat + 255 < 2 ^ 32 := b
 example : columnValue (pos128 3) (v128cInc 3 (BitVec.allOnes 512) 1#32) = 0 := by decide +kernel
 
 end SkinnyVerif.Properties
+
+/-! ## any sequence of lane increments
+
+The CTR code applies lane increments in sequences: the stagger of `set_counter` (`inc 1 1; inc 2 2; …`), the batch
+step of `encrypt` (`inc j pending` for every lane), the resynchronisation after a key or tweak change.  For *every*
+sequence of (column, increment) pairs, each lane counter ends up at its initial value plus the sum of the increments
+addressed to it, modulo 2^(8·bs) - whatever the order and the interleaving with increments of other lanes. -/
+
+namespace SkinnyVerif.Properties
+open SkinnyVerif SkinnyVerif.Gen SkinnyVerif.Lemmas
+
+/-- a family of per-column increments on a strided image together with its specification -/
+structure IncFamily (w : Nat) where
+  inc : Nat → BitVec w → BitVec 32 → BitVec w
+  pos : Nat → List Nat
+  n : Nat
+  M : Nat
+  len : Nat
+  hM : M = 256 ^ len
+  hlen : ∀ c, c < n → (pos c).length = len
+  spec : ∀ c, c < n → ∀ img k,
+    (k.toNat + 255 < 2 ^ 32 → columnValue (pos c) (inc c img k) = (columnValue (pos c) img + k.toNat) % M) ∧
+    (∀ c', c' < n → c' ≠ c → columnValue (pos c') (inc c img k) = columnValue (pos c') img)
+
+theorem valLE_lt (l : List Nat) (h : ∀ b ∈ l, b < 256) : valLE l < 256 ^ l.length := by
+  induction l with
+  | nil => simp [valLE]
+  | cons b bs ih =>
+    have hb : b < 256 := h b (by simp)
+    have := ih (fun x hx => h x (by simp [hx]))
+    simp only [valLE, List.length_cons, Nat.pow_succ]
+    omega
+
+theorem columnValue_lt {w : Nat} (qs : List Nat) (img : BitVec w) : columnValue qs img < 256 ^ qs.length := by
+  have := valLE_lt (qs.map (fun q => (lane 8 q img).toNat)) (by
+    intro b hb
+    rcases List.mem_map.mp hb with ⟨q, _, rfl⟩
+    exact (lane 8 q img).isLt)
+  simpa [columnValue, colVal] using this
+
+def applyIncs {w : Nat} (F : IncFamily w) (img : BitVec w) (ops : List (Nat × BitVec 32)) : BitVec w :=
+  ops.foldl (fun im op => F.inc op.1 im op.2) img
+
+/-- the sum of the increments addressed to column `j` -/
+def totalFor (ops : List (Nat × BitVec 32)) (j : Nat) : Nat :=
+  (ops.map (fun op => if op.1 = j then op.2.toNat else 0)).sum
+
+theorem applyIncs_column {w : Nat} (F : IncFamily w) (ops : List (Nat × BitVec 32))
+    (hops : ∀ op ∈ ops, op.1 < F.n ∧ op.2.toNat + 255 < 2 ^ 32) (img : BitVec w) (j : Nat) (hj : j < F.n) :
+    columnValue (F.pos j) (applyIncs F img ops) = (columnValue (F.pos j) img + totalFor ops j) % F.M := by
+  induction ops generalizing img with
+  | nil =>
+    have := columnValue_lt (F.pos j) img
+    rw [F.hlen j hj, ← F.hM] at this
+    simp [applyIncs, totalFor, Nat.mod_eq_of_lt this]
+  | cons op rest ih =>
+    have hop := hops op (by simp)
+    have ih' := ih (fun o ho => hops o (by simp [ho])) (F.inc op.1 img op.2)
+    simp only [applyIncs, List.foldl_cons] at ih' ⊢
+    rw [ih']
+    have hs := F.spec op.1 hop.1 img op.2
+    simp only [totalFor, List.map_cons, List.sum_cons]
+    by_cases hc : op.1 = j
+    · subst hc
+      rw [hs.1 hop.2]
+      simp only [if_true]
+      rw [Nat.mod_add_mod, Nat.add_assoc]
+    · rw [hs.2 j hj (fun h => hc h.symm)]
+      simp only [hc, if_false, Nat.zero_add]
+
+/-- the four families of the vector CTR files -/
+def fam128 : IncFamily 512 := ⟨v128cInc, pos128, 4, 2 ^ 128, 16, by decide, fun c hc => by simp [pos128],
+  fun c hc img k => ⟨(C05_v128c_increment c hc img k).1, (C05_v128c_increment c hc img k).2.2⟩⟩
+def fam256 : IncFamily 1024 := ⟨v256cInc, pos256, 8, 2 ^ 128, 16, by decide, fun c hc => by simp [pos256],
+  fun c hc img k => ⟨(C05_v256c_increment c hc img k).1, (C05_v256c_increment c hc img k).2.2⟩⟩
+def fam64 : IncFamily 512 := ⟨v64cInc, pos64, 8, 2 ^ 64, 8, by decide, fun c hc => by simp [pos64],
+  fun c hc img k => ⟨(C05_v64c_increment c hc img k).1, (C05_v64c_increment c hc img k).2.2⟩⟩
+def famM : IncFamily 512 := ⟨vmcInc, pos64m, 8, 2 ^ 64, 8, by decide, fun c hc => by simp [pos64m],
+  fun c hc img k => ⟨(C05_vmc_increment c hc img k).1, (C05_vmc_increment c hc img k).2.2⟩⟩
+
+/-- **every sequence of lane increments, all four vector CTR files** -/
+theorem C05_lane_increment_sequences :
+    (∀ ops img j, (∀ op ∈ ops, op.1 < 4 ∧ op.2.toNat + 255 < 2 ^ 32) → j < 4 →
+      columnValue (pos128 j) (applyIncs fam128 img ops) = (columnValue (pos128 j) img + totalFor ops j) % 2 ^ 128) ∧
+    (∀ ops img j, (∀ op ∈ ops, op.1 < 8 ∧ op.2.toNat + 255 < 2 ^ 32) → j < 8 →
+      columnValue (pos256 j) (applyIncs fam256 img ops) = (columnValue (pos256 j) img + totalFor ops j) % 2 ^ 128) ∧
+    (∀ ops img j, (∀ op ∈ ops, op.1 < 8 ∧ op.2.toNat + 255 < 2 ^ 32) → j < 8 →
+      columnValue (pos64 j) (applyIncs fam64 img ops) = (columnValue (pos64 j) img + totalFor ops j) % 2 ^ 64) ∧
+    (∀ ops img j, (∀ op ∈ ops, op.1 < 8 ∧ op.2.toNat + 255 < 2 ^ 32) → j < 8 →
+      columnValue (pos64m j) (applyIncs famM img ops) = (columnValue (pos64m j) img + totalFor ops j) % 2 ^ 64) :=
+  ⟨fun ops img j h hj => applyIncs_column fam128 ops h img j hj, fun ops img j h hj => applyIncs_column fam256 ops h img j hj,
+   fun ops img j h hj => applyIncs_column fam64 ops h img j hj, fun ops img j h hj => applyIncs_column famM ops h img j hj⟩
+
+/-- the stagger of `skinny128_ctr_vec128_set_counter` (`inc 1 1; inc 2 2; inc 3 3`) followed by one batch step
+(`inc j 4` for every lane): lane `j` holds `c_j + j + 4` -/
+example (img : BitVec 512) (j : Nat) (hj : j < 4) :
+    columnValue (pos128 j) (applyIncs fam128 img [(1, 1#32), (2, 2#32), (3, 3#32), (0, 4#32), (1, 4#32), (2, 4#32), (3, 4#32)]) =
+      (columnValue (pos128 j) img + (j + 4)) % 2 ^ 128 := by
+  rw [C05_lane_increment_sequences.1 _ img j (by decide) hj]
+  nat_cases j 4 <;> rfl
+
+end SkinnyVerif.Properties
